@@ -34,6 +34,7 @@ type Gen struct {
 	tagIDs    map[string]int
 	noInline  map[*ssa.Function]bool
 	repo      string
+	overlay   map[string][]byte
 }
 
 type FuncInfo struct {
@@ -77,7 +78,7 @@ func loadProgram(repo string, patterns []string, overlay map[string][]byte) (*Ge
 	prog, _ := ssautil.AllPackages(pkgs, ssa.GlobalDebug|ssa.InstantiateGenerics)
 	prog.Build()
 	g := &Gen{prog: prog, pkgs: pkgs, ssaPkgs: map[string]*ssa.Package{}, typesPkgs: map[string]*types.Package{},
-		funcs: map[string]*ssa.Function{}, cs: newContractSet(), pure: map[*ssa.Function]int{}, tagIDs: map[string]int{}, repo: repo, noInline: map[*ssa.Function]bool{}}
+		funcs: map[string]*ssa.Function{}, cs: newContractSet(), pure: map[*ssa.Function]int{}, tagIDs: map[string]int{}, repo: repo, noInline: map[*ssa.Function]bool{}, overlay: overlay}
 	for _, sp := range prog.AllPackages() {
 		g.ssaPkgs[sp.Pkg.Path()] = sp
 		g.typesPkgs[sp.Pkg.Path()] = sp.Pkg
